@@ -115,3 +115,21 @@ PROPS["C12"] = dict(canon="serve", prep=True, model_is_oracle=False, timeout=120
          "non-trivial = every case",
     trusted_base=SERVE_TB + ["the Lean reference store (Model/RefStore) supplies the primitive operations' results; scores from the exactly representable pool"],
     assumptions=SERVE_AS + ["integers are what strconv.Atoi accepts (a leading + is tolerated)", "PING with an empty-string argument answers +PONG (handler interface cannot tell it from no argument): outside the claimed space"])
+
+LIFE_TB = [KERNEL, TIE, "a real server on loopback ports (chosen by bind probe), driven action by action; each observation taken after the server became quiescent (polled, 1.5 s cap)",
+           "crypto/tls and crypto/x509 decide which handshakes verify (the model takes the verdict per credential kind as given)",
+           "OS socket semantics; goroutines are counted by stack frames of the framework"]
+PROPS["C15"] = dict(timeout=1800,
+    rule="every sequence of Start/Stop/Restart of length <=4 (quick; <=3 with TLS) / <=6 (thorough), with after each call: observation (registry, ports bindable?, framework goroutines), a client on every enabled port, "
+         "a client that connects and idles across the next call; plus random histories of clients connecting, idling, disconnecting (close, QUIT, RST) between the calls; non-trivial = every case",
+    trusted_base=LIFE_TB, assumptions=["the interleavings of lifecycle calls with exiting accept loops / connection goroutines are forced through the verif schedule points (thorough) and abstracted by the Lifecycle transition system"])
+PROPS["C19"] = dict(timeout=1800,
+    rule="every ending mode (client close, RST, QUIT, malformed frame, half request then close) at pipeline positions 0..2 on the plain and the TLS port; every TLS handshake fault (plain text, garbage, abort after ClientHello, no / self-signed / "
+         "foreign / expired certificate, rejected name), a stalled handshake ended by the client and by Stop; Stop with several connections in flight; churn of 150 (quick) / 10^4 (thorough) connect-disconnect cycles mixing all "
+         "endings with up to 32 in flight; oracle: registry, goroutines and listening sockets at their baseline after every ending; non-trivial = every case",
+    trusted_base=LIFE_TB, assumptions=["descriptor tables and TCP reset semantics are the kernel's; the model claims the control flow reaches the releases, the tie observes the effect"])
+PROPS["C09"] = dict(timeout=1800,
+    rule="complete enumeration: configurations {no rule, common-name rule, rule + password, TLS only} x credentials {none, plain text, self-signed, foreign CA, expired, right CA wrong name, name only on an intermediate, "
+         "right CA right name, garbage, abort after ClientHello, stall} x position {first, between two good clients, while a good client is connected, all in a row}; oracle: faulty clients are disconnected and no command of "
+         "theirs is executed (handler call counter), both listeners keep serving; non-trivial = every case",
+    trusted_base=LIFE_TB, assumptions=["RequireAndVerifyClientCert verifies exactly chains to the configured CA that are currently valid (crypto/tls trusted)"])
